@@ -11,7 +11,7 @@ CLAIMED = {
          "Trusted: MD4, os.Root/renameio. Not covered: offsets/window/block arithmetic, token encoding, name mapping of source arguments, option combinations. One genuine defect repaired by a fix: commit (F24).",
          "DESIGN.md §13"),
  "C16": ("SSA guard dominance at the whole-file request sites, natural-loop membership of the candidate-rejection edges, store analysis of the scan position, allocation-site/loop analysis of the per-file lookup structures, structural shape of the block-checksum loop",
-         "Partial, structural; the bound on literal bytes is NOT decided. Decides necessary conditions of 'unchanged data is found again': the generator requests the whole file only when the destination is missing, not regular or cannot be opened, and otherwise sums the opened destination file; every block up to SumSizesSqroot's count gets its weak and strong sum over the bytes just read; the sender tries every candidate with the window's tag (rejections continue the candidate loop) at every byte offset (outside the match path the scan position only ever advances by one, on every iteration); the lookup structures and Transfer.lastMatch are rebuilt/reset for every file.",
+         "Partial, structural; the bound on literal bytes is NOT decided. Decides necessary conditions of 'unchanged data is found again': the generator requests the whole file only when the destination is missing, not regular or cannot be opened, and otherwise sums the opened destination file; every block up to SumSizesSqroot's count gets its weak and strong sum over the bytes just read; the sender tries every candidate with the window's tag (rejections continue the candidate loop) at every byte offset (outside the match path the scan position only ever advances by one, on every iteration); the lookup structures and Transfer.lastMatch are rebuilt/reset for every file; the targets are sorted by a comparator that is an ordering of the tags.",
          "Trusted: the checksum definitions (C02/ONE-DEFINITION). Not covered: rolling-checksum algebra, tag function, block-size selection, the end bound — arithmetic over runtime data.",
          "DESIGN.md §13"),
  "C18": ("store/effect scan over the session call tree (escape-edge VTA graph), allocation-site provenance of session objects, per-goroutine field access partition, SSA dominance for joins, structural shape of the cancellation select",
@@ -19,11 +19,11 @@ CLAIMED = {
          "Trusted: errgroup/context semantics; embedding program's logger. Authorised-SSH users re-entering the CLI are a new program run, not session code.",
          "DESIGN.md §3 C18"),
  "C11": ("path enumeration with events over the generator (must-pass-through setPerms), finite-assignment CFG walks for option guards and type tables (phi-choice tracking), provenance of metadata field bindings",
-         "Partial, structural: every created/accepted entry goes through setPerms; each metadata syscall is controlled by its own option and privilege condition for all 64 condition assignments; wire type ↔ Go mode ↔ system-call tables agree per file type; each field travels from its accessor to its sink; the owner-write touch-up is set and consumed consistently; without -p an up-to-date file keeps its own permission bits; mtimes compare at one-second granularity. Numeric fidelity is not decided.",
+         "Partial, structural: every created/accepted entry goes through setPerms; each metadata syscall is controlled by its own option and privilege condition for all 64 condition assignments; wire type ↔ Go mode ↔ system-call tables agree per file type; each field travels from its accessor to its sink; the owner-write touch-up is set and consumed consistently; without -p an up-to-date file keeps its own permission bits; mtimes compare at one-second granularity; the entry encoder puts every entry's own mode, mtime, ids, rdev and link target on the wire (one record sequence per assignment, never 'same as previous'). Numeric fidelity is not decided.",
          "Trusted: kernel/os.Root metadata calls. One genuine defect repaired by a fix: commit.",
          "DESIGN.md §3 C11"),
  "C14": ("wire-sequence extraction by finite-assignment CFG walk of encoder and decoder (compared with each other, no oracle), emission-table ∘ parse-table composition over all option assignments, sibling agreement of the two TransferOpts literals, handshake sequence extraction",
-         "Decides: for all 7×64 (file type × option subset) assignments the decoder consumes exactly what the encoder emits; every option the server consults is forwarded and arrives with the client's value (2^n assignments through the extracted emission and parse tables); both receiver configurations bind fields to the same accessors; handshake and filter-list reads/writes are mirror images. Desynchronisation freedom for options outside the accepted set is not decided.",
+         "Decides: for all 7×64 (file type × option subset) assignments the decoder consumes exactly what the encoder emits; every option the server consults is forwarded and arrives with the client's value (2^n assignments through the extracted emission and parse tables); both receiver configurations bind fields to the same accessors; handshake and filter-list reads/writes are mirror images; a zero-terminated list never carries an empty string; option post-processing (recurse ⇒ dirs) is applied on both ends. Desynchronisation freedom for options outside the accepted set is not decided.",
          "Trusted: the extraction vocabulary (atoms) — anything outside it makes the check undecided (fails closed). Two genuine defects repaired by fix: commits.",
          "DESIGN.md §3 C14"),
  "C15": ("wire-sequence extraction (7×64 encoder, 7×64×128 decoder assignments) compared with a frozen protocol-27 table; constant table; sibling agreement (longint, checksum header); sort/numbering dominance",
@@ -35,7 +35,7 @@ CLAIMED = {
          "Trusted: x/crypto/ssh. Context-insensitive reachability (a mode check inside the general entry point would still be reported). One genuine defect repaired by a fix: commit.",
          "DESIGN.md §3 C20"),
  "C08": ("call-graph reachability of process terminators from session entry points + intraprocedural/interprocedural integer taint with dominating-comparison bounds (SSA)",
-         "Partial, structural: no os.Exit/log.Fatal/explicit panic is reachable from daemon, client or SSH session entry points; every integer read from the wire that reaches an index, slice bound or make length is bounded by dominating comparisons; SumHead fields are range-checked by their reader; integer divisions have non-zero divisors; window slices are tested for emptiness before indexing; connection errors cannot reach the accept loop. Nil dereferences, arithmetic-dependent panics and library panics are NOT decided.",
+         "Partial, structural: no os.Exit/log.Fatal/explicit panic is reachable from daemon, client or SSH session entry points; every integer read from the wire that reaches an index, slice bound or make length is bounded by dominating comparisons; SumHead fields are range-checked by their reader; integer divisions have non-zero divisors; window slices are tested for emptiness before indexing; fixed-width decodes and constant indices on byte slices, and constant indices on strings in the wire-facing packages, have an established minimum length; every output stream session code writes to is set in the session environment; connection errors cannot reach the accept loop. Other nil dereferences, arithmetic-dependent panics and library panics are NOT decided.",
          "Trusted: VTA call-graph soundness assumptions; Go runtime semantics of bounds checks. Three genuine defects repaired by fix: commits. The demultiplexer's buffer-size panic is discharged through C17/BUFFER+LENGTH-GATE.",
          "DESIGN.md §3 C08"),
  "C17": ("value-flow (use-set) of the demultiplexer and its buffer, SSA guard dominance of length checks, who-may-call for session reads, decision table of the frame reader, constant relations",
@@ -43,11 +43,11 @@ CLAIMED = {
          "Trusted: bufio.Reader.Read behaviour. End-to-end equality across re-framings is not decided.",
          "DESIGN.md §3 C17"),
  "C13": ("SSA guard dominance (SkipDir only for directories), def/use agreement between rule parsing and rule matching (every settable flag is read or rejected), decision-table extraction of first-match, provenance of the rule list handed to the sender",
-         "Partial, structural: excluded files never cut the walk; every flag the parser can set is honoured by the matcher or rejected with an error; no explicit panic under the matcher; first matching rule decides by its include flag; a plain-name rule is decided by string equality and loses exactly the prefix that was tested; both sender entry points receive the user's rules; the receiving client sends its rules before the list terminator. String semantics of matching are not decided.",
+         "Partial, structural: excluded files never cut the walk; every flag the parser can set is honoured by the matcher or rejected with an error; no explicit panic under the matcher; first matching rule decides by its include flag; a plain-name rule is decided by string equality and loses exactly the prefix that was tested; both sender entry points receive the user's rules; the receiving client sends its rules before the list terminator and never sends an empty rule (whose length is the terminator); the filter decision dominates every persistent store and wire write of the walk callback (an excluded entry leaves no trace in what follows). String semantics of matching are not decided.",
          "Trusted: fs.WalkDir SkipDir semantics. Five genuine defects found by these rules were repaired by fix: commits (known_findings.json).",
          "DESIGN.md §3 C13"),
- "C02": ("SSA guard dominance with value identity (same block index i across weak, length and strong comparisons) + who-may-call for checksum definitions + field-store provenance of the seed",
-         "Partial, structural: a block reference is emitted only after weak, length and strong (seeded MD4, sliced by the negotiated length) comparisons for that same block; one shared checksum definition used by both ends with the session seed; the whole-file trailer is always sent; a reallocated read window keeps its contents; a read window never extends past the mapped file size (a read past it is reported as a changed file and fails the transfer). Exactness of offsets/windows/arithmetic is NOT decided.",
+ "C02": ("SSA guard dominance with value identity (same block index i across weak, length and strong comparisons) + who-may-call for checksum definitions + field-store provenance of the seed + affine-form evaluation (no solver) of the token codec and of matched's range bookkeeping + guarded-leaf tables for block lengths",
+         "Partial, structural: a block reference is emitted only after weak, length and strong (seeded MD4, sliced by the negotiated length) comparisons for that same block; one shared checksum definition used by both ends with the session seed; the whole-file trailer is always sent; a reallocated read window keeps its contents; a read window never extends past the mapped file size; the block-reference codec of the two ends composes to the identity; both ends give block i the same length (remainder only for the last block); sender.matched partitions the file (literal run, bytes hashed and lastMatch advance agree as affine forms). The search loop's own offset arithmetic, the rolling checksum and the receiver's literal handling are NOT decided.",
          "Trusted: MD4. Not covered: window arithmetic in mapStruct/matched/receiveData beyond the clamp to the file size. One genuine defect repaired by a fix: commit.",
          "DESIGN.md §3 C02"),
  "C06": ("API confinement over the reachable call graph + SSA provenance of the os.OpenRoot argument (phi-edge guards) + interface-implementation enumeration",
@@ -55,7 +55,7 @@ CLAIMED = {
          "Trusted: os.Root refuses escaping symlinks/.. ; fs.FS implementations supplied by embedders.",
          "DESIGN.md §3 C06"),
  "C12": ("decision-table extraction by path enumeration over the SSA CFG with provenance-identified atoms, compared with a specification procedure",
-         "Decides that skipFile implements exactly size → (-c: content checksum) → (-I: always) → mtime at one-second granularity, and that recvGenerator requests a regular entry iff missing / not regular / skipFile false, for every path (unknown conditions explored both ways). Behaviour of time.Time and of repeat syncs end-to-end is not decided.",
+         "Decides that skipFile implements exactly size → (-c: content checksum) → (-I: always) → mtime at one-second granularity, and that recvGenerator requests a regular entry iff missing / not regular / skipFile false, for every path (unknown conditions explored both ways); the mtime is applied under -t; the entry encoder carries every entry's own length, mtime and (under -c) checksum; no process-wide state (caches) under the file-list construction and the generator. Behaviour of time.Time and of repeat syncs end-to-end is not decided.",
          "Trusted: time.Truncate/Equal, bytes.Equal. Fail-closed: an unrecognised condition in skipFile makes the check fail as undecided.",
          "DESIGN.md §3 C12"),
  "C19": ("decision-table extraction by path enumeration over the SSA CFG (atoms by operand provenance) + guard dominance of the OK reply",
@@ -79,7 +79,7 @@ CLAIMED = {
          "Trusted: os.Root/kernel path confinement, renameio.WithRoot. Linux configurations only. Call graph soundness: no reflection/unsafe in module code; foreign code calls only what it is handed.",
          "DESIGN.md §3 C05"),
  "C09": ("SSA guard dominance (local + lifted through call chains) and sibling-agreement of sort/lookup comparators",
-         "Decides structural necessary conditions of --delete correctness: SkipDir only for directories; RemoveAll only of the walked path after a negative list lookup, and only with IOErrors==0 and DeleteMode on every chain; lookup comparator matches the sort comparator; filter consultation before removal (known finding F14). Does not decide set equality for all trees.",
+         "Decides structural necessary conditions of --delete correctness: SkipDir only for directories; RemoveAll only of the walked path after a negative list lookup, and only with IOErrors==0 and DeleteMode on every chain; lookup comparator matches the sort comparator; the delete walk skips only directories that are not in the list (it descends into every listed one); the sender's I/O error flag is sticky over all source arguments; filter consultation before removal (known finding F14). Does not decide set equality for all trees.",
          "Trusted: fs.WalkDir semantics, sort.Search. Known finding listed in known_findings.json (exclude rules do not protect from --delete).",
          "DESIGN.md §3 C09"),
  "C10": ("effect analysis with guard dominance lifted over the package call graph (closures at creation and call sites)",
